@@ -60,6 +60,10 @@ def gen_cases(rng, tier):
         for warm in (True, False):
             cases.append({'kind': 'observer', 'sizes': [3, 2], 'obs': obs, 'suffix': 'none', 'prefix': 'titles', 'warm_titles': warm,
                           **({'odd': []} if obs == 'dump_noforce' else {})})
+    # a package with no resources at all at the observer's position: it still commits (a descriptor, a valid zip, a stream
+    # file holding the descriptor line) and reports
+    for obs in ('dump', 'zip', 'stream', 'checkpoint', 'finalizer'):
+        cases.append({'kind': 'observer', 'sizes': [], 'obs': obs, 'suffix': 'none', 'prefix': 'none'})
     for odd in ([0], [1], [0, 2], []):
         cases.append({'kind': 'observer', 'sizes': [3, 4, 2], 'obs': 'dump_noforce', 'suffix': 'none', 'prefix': 'none', 'odd': odd})
     return cases
@@ -116,7 +120,7 @@ def _rowfn(row):
 
 def canon_desc(dp, stamps_ok):
     out = []
-    for r in dp['resources']:
+    for r in dp.get('resources', []):
         rr = dict((k, v) for k, v in r.items() if not (stamps_ok and k in WHITELIST_RES))
         sch = copy.deepcopy(rr.get('schema', {}))
         for f in sch.get('fields', []):
@@ -151,6 +155,8 @@ def run_impl(case):
 
     def prefix():
         p = [list(map(dict, rows)) for rows in mk_sources(sizes)]
+        if not sizes:
+            p = [DF.update_package(title='a package without resources')]
         if case['prefix'] == 'add_field':
             p.append(DF.add_field('p', 'string', 'x'))
         if case['prefix'] == 'row_fn':
